@@ -15,8 +15,8 @@ Import ListNotations.
 (* a and b (both of type t) are the same value *)
 Fixpoint seq_t (t : ty) (a b : value) {struct t} : Prop :=
   match t with
-  | TNil | TBool | TStr | TFun => a = b
-  | TInt | TFloat => exists p q, a = VNum p /\ b = VNum q /\ Qeq p q
+  | TNil | TBool | TInt | TStr | TFun => a = b
+  | TFloat => exists p q, a = VFloat p /\ b = VFloat q /\ Qeq p q
   | TTuple ts =>
       match a, b with
       | VTuple xs, VTuple ys => all3 (fun t' x y => seq_t t' x y) ts xs ys
@@ -58,7 +58,8 @@ End Lex.
 (* a < b at an ordered type t: numbers by value, strings by bytes, tuples lexicographically *)
 Fixpoint lt_t (t : ty) (a b : value) {struct t} : Prop :=
   match t with
-  | TInt | TFloat => exists p q, a = VNum p /\ b = VNum q /\ Qlt p q
+  | TInt => exists x y, a = VInt x /\ b = VInt y /\ (x < y)%Z
+  | TFloat => exists p q, a = VFloat p /\ b = VFloat q /\ Qlt p q
   | TStr => exists s u, a = VStr s /\ b = VStr u /\ str_lt s u
   | TTuple ts =>
       match a, b with
@@ -68,37 +69,39 @@ Fixpoint lt_t (t : ty) (a b : value) {struct t} : Prop :=
   | _ => False
   end.
 
-(* element-wise combination of two values of a numeric type with a (partial) operation on Q *)
-Fixpoint pw2 (f : Q -> Q -> res Q) (t : ty) (a b : value) {struct t} : res value :=
+(* element-wise combination of two values of a numeric type: fi on two ints, ff on two floats *)
+Fixpoint pw2 (fi : Z -> Z -> res value) (ff : Q -> Q -> res value) (t : ty) (a b : value) {struct t} : res value :=
   match t with
-  | TInt | TFloat =>
-      match a, b with VNum p, VNum q => rmap VNum (f p q) | _, _ => Err end
+  | TInt => match a, b with VInt x, VInt y => fi x y | _, _ => Err end
+  | TFloat => match a, b with VFloat p, VFloat q => ff p q | _, _ => Err end
   | TTuple ts =>
       match a, b with
-      | VTuple xs, VTuple ys => rmap VTuple (zipM3 (fun t' x y => pw2 f t' x y) ts xs ys)
+      | VTuple xs, VTuple ys => rmap VTuple (zipM3 (fun t' x y => pw2 fi ff t' x y) ts xs ys)
       | _, _ => Err
       end
   | _ => Err
   end.
 
-(* every component of a combined with one number *)
-Fixpoint pw_scalar (f : Q -> Q -> res Q) (t : ty) (a : value) (d : Q) {struct t} : res value :=
+(* every component of a combined with one number d (given by its value as a rational) *)
+Fixpoint pw_scalar (ff : Q -> Q -> res value) (t : ty) (a : value) (d : Q) {struct t} : res value :=
   match t with
-  | TInt | TFloat => match a with VNum p => rmap VNum (f p d) | _ => Err end
+  | TInt => match a with VInt x => ff (x # 1) d | _ => Err end
+  | TFloat => match a with VFloat p => ff p d | _ => Err end
   | TTuple ts =>
       match a with
-      | VTuple xs => rmap VTuple (zipM2 (fun t' x => pw_scalar f t' x d) ts xs)
+      | VTuple xs => rmap VTuple (zipM2 (fun t' x => pw_scalar ff t' x d) ts xs)
       | _ => Err
       end
   | _ => Err
   end.
 
-Fixpoint pw1 (f : Q -> Q) (t : ty) (a : value) {struct t} : res value :=
+Fixpoint pw1 (fi : Z -> Z) (ff : Q -> Q) (t : ty) (a : value) {struct t} : res value :=
   match t with
-  | TInt | TFloat => match a with VNum p => Ok (VNum (f p)) | _ => Err end
+  | TInt => match a with VInt x => Ok (VInt (fi x)) | _ => Err end
+  | TFloat => match a with VFloat p => Ok (VFloat (ff p)) | _ => Err end
   | TTuple ts =>
       match a with
-      | VTuple xs => rmap VTuple (zipM2 (fun t' x => pw1 f t' x) ts xs)
+      | VTuple xs => rmap VTuple (zipM2 (fun t' x => pw1 fi ff t' x) ts xs)
       | _ => Err
       end
   | _ => Err
@@ -107,7 +110,8 @@ Fixpoint pw1 (f : Q -> Q) (t : ty) (a : value) {struct t} : res value :=
 (* `+` with strings concatenating, element-wise (what the type checker's `add` admits) *)
 Fixpoint pw_add (t : ty) (a b : value) {struct t} : res value :=
   match t with
-  | TInt | TFloat => match a, b with VNum p, VNum q => Ok (VNum (Qred (p + q))) | _, _ => Err end
+  | TInt => match a, b with VInt x, VInt y => Ok (VInt (x + y)) | _, _ => Err end
+  | TFloat => match a, b with VFloat p, VFloat q => Ok (VFloat (Qred (p + q))) | _, _ => Err end
   | TStr => match a, b with VStr s, VStr u => Ok (VStr (s ++ u)) | _, _ => Err end
   | TTuple ts =>
       match a, b with
@@ -117,12 +121,16 @@ Fixpoint pw_add (t : ty) (a b : value) {struct t} : res value :=
   | _ => Err
   end.
 
-(* exact operations on rationals, result in lowest terms; x/0 is outside the number model *)
-Definition qs_add (p q : Q) : res Q := Ok (Qred (p + q)).
-Definition qs_sub (p q : Q) : res Q := Ok (Qred (p - q)).
-Definition qs_mul (p q : Q) : res Q := Ok (Qred (p * q)).
-Definition qs_div (p q : Q) : res Q := if Qeq_dec q 0 then Unsup else Ok (Qred (p / q)).
-Definition qs_neg (p : Q) : Q := Qopp p.
+(* exact operations: ints stay ints under + - *; floats are rationals in lowest terms; `/` always gives
+   a float and x/0 is outside the number model *)
+Definition zs_add (x y : Z) : res value := Ok (VInt (x + y)).
+Definition zs_sub (x y : Z) : res value := Ok (VInt (x - y)).
+Definition zs_mul (x y : Z) : res value := Ok (VInt (x * y)).
+Definition qs_add (p q : Q) : res value := Ok (VFloat (Qred (p + q))).
+Definition qs_sub (p q : Q) : res value := Ok (VFloat (Qred (p - q))).
+Definition qs_mul (p q : Q) : res value := Ok (VFloat (Qred (p * q))).
+Definition qs_div (p q : Q) : res value := if Qeq_dec q 0 then Unsup else Ok (VFloat (Qred (p / q))).
+Definition zs_div (x y : Z) : res value := qs_div (x # 1) (y # 1).
 
 (* ------------------------------------------------------------------------------------------------ *)
 (* C18: plain containers                                                                            *)
